@@ -21,6 +21,8 @@ ENGINES = {
 DEFAULT_CHECKS = ['--bounds-check', '--pointer-check', '--div-by-zero-check', '--signed-overflow-check',
                   '--pointer-overflow-check', '--undefined-shift-check']
 
+ALL_LIB = ['src/Arguments.cc', 'src/Encoding.cc', 'src/Filesystem.cc', 'src/Hash.cc', 'src/Image.cc', 'src/JSON.cc', 'src/Network.cc',
+           'src/Process.cc', 'src/Random.cc', 'src/Strings.cc', 'src/Time.cc', 'src/Tools.cc', 'src/UnitTest.cc']
 MEM_LIMIT = 8 << 30
 _slots = threading.BoundedSemaphore(int(os.environ.get('VERIF_SOLVER_SLOTS', '14')))
 
@@ -33,6 +35,7 @@ class Replay:
     search: Optional[str] = None     # optional replay-search harness entry (bounded, fixed-size inputs)
     search_unwind: int = 0
     extra: List[str] = field(default_factory=list)     # constant extra args (e.g. the type name)
+    small_define: Optional[str] = None  # -D that restricts inputs to small sizes: used to re-ask for a replayable counterexample
 
 
 @dataclass
@@ -65,6 +68,9 @@ class Group:
     result: Dict[str, Any] = field(default_factory=dict)
 
 
+REACH = 'VERIF_REACH'
+
+
 class Undecided(Exception):
     pass
 
@@ -84,16 +90,16 @@ def run(cmd, timeout, cwd=None):
         return None, (e.stdout or b'').decode('utf-8', 'replace'), 'TIMEOUT', time.time() - t0
 
 
-def compile_group(ctx, g: Group):
+def compile_group(ctx, g: Group, extra_defines=(), suffix=''):
     """goto-cc + goto-instrument. Returns path of the instrumented binary. Raises Undecided on tool failure."""
-    d = os.path.join(ctx.build_dir, 'g_' + re.sub(r'[^A-Za-z0-9_.-]', '_', g.name) + ('_be' if g.big_endian else ''))
+    d = os.path.join(ctx.build_dir, 'g_' + re.sub(r'[^A-Za-z0-9_.-]', '_', g.name) + ('_be' if g.big_endian else '') + suffix)
     os.makedirs(d, exist_ok=True)
     a = os.path.join(d, 'a.gb')
     b = os.path.join(d, 'b.gb')
     cmd = ['goto-cc', '--function', g.entry, '-I', VERIF, '-I', ctx.build_dir, '-DVERIF=1']
     if g.big_endian:
         cmd += ['--big-endian', '-D__BYTE_ORDER__=__ORDER_BIG_ENDIAN__', '-DVERIF_BE=1']
-    cmd += ['-D' + x for x in g.defines]
+    cmd += ['-D' + x for x in list(g.defines) + list(extra_defines)]
     cmd += [os.path.join(VERIF, g.harness), '-o', a]
     rc, out, err, _ = run(cmd, 300)
     g.result['goto_cc'] = ' '.join(cmd)
@@ -152,9 +158,16 @@ def parse_json(out):
     if bad:
         return None
     # an SMT back end that failed leaves ERROR statuses
+    anyfail = any(r.get('status') == 'FAILURE' and r.get('description') != REACH for r in results)
     for r in results:
-        if r.get('status') not in ('SUCCESS', 'FAILURE'):
-            return None
+        st = r.get('status')
+        if st in ('SUCCESS', 'FAILURE'):
+            continue
+        # cbmc leaves a property UNKNOWN when the run already refuted other properties; that is an answer for the
+        # refuted ones only.  Any other status (ERROR ...) or UNKNOWN without a refutation is a non-answer.
+        if st == 'UNKNOWN' and anyfail:
+            continue
+        return None
     return results, status, msgs
 
 
@@ -239,7 +252,6 @@ def portfolio(g: Group, binary, trace=False, prop=None, engines=None, timeout=No
     return engine, parsed, time.time() - t0, log, raw
 
 
-REACH = 'VERIF_REACH'
 AUX_PAT = re.compile(r'(loop_invariant_base|loop_invariant_step|loop_decreases|loop_assigns|loop_step_unwinding|\.assigns\.|\.precondition\.|unwind|no-body|recursion)')
 
 
@@ -309,6 +321,20 @@ def verify_group(ctx, g: Group):
             g.result['trace_property'] = prim[0]['name']
         except Undecided:
             g.result['trace_inputs'] = None
+        if g.replay is not None and g.replay.small_define:
+            # ask again for a counterexample on small sizes so that it can be replayed natively
+            try:
+                saved = dict(g.result)
+                b2 = compile_group(ctx, g, [g.replay.small_define], '_small')
+                g.result.update({k: saved[k] for k in ('goto_cc', 'goto_instrument', 'binary') if k in saved})
+                e4, (res4, st4, _), dt4, log4, raw4 = portfolio(g, b2, trace=True, prop=prim[0]['name'],
+                                                               engines=[engine], timeout=max(g.timeout, 60))
+                small = trace_inputs(res4, prim[0]['name'])
+                if any(r.get('property') == prim[0]['name'] and r.get('status') == 'FAILURE' for r in res4) and small:
+                    g.result['trace_inputs_unrestricted'] = g.result.get('trace_inputs')
+                    g.result['trace_inputs'] = small
+            except Undecided:
+                pass
     g.result['wall'] = round(time.time() - t0, 2)
     return g
 
